@@ -1,6 +1,8 @@
 """C05 — the Rust encoder never truncates: out-of-range is an error, length as promised."""
 from __future__ import annotations
 
+import re
+
 from . import c03
 
 PROP = 'C05'
@@ -49,23 +51,65 @@ WINDOW = '''
 '''
 
 
-def windowed(out, cov):
+# element-size field: one element whose own octet length sweeps the window around the 8-bit limit.
+# El = { _count_(d): 8, d: 8[] } has 1 + n octets; EW = { _elementsize_(x): 8, x: El[] }.
+WINDOW_EW = """
+    #[kani::proof]
+    #[kani::unwind(%(unwind)d)]
+    fn c05w_EW() {
+        let n: usize = kani::any();
+        kani::assume(n >= %(lo)d && n <= %(hi)d);
+        let v = EW { x: vec![El { d: vec![0; n] }] };
+        let mut out = ArrBuf::<%(cap)d>::new();
+        match v.encode(&mut out) {
+            Ok(()) => {
+                assert!(1 + n <= 255, "C05: encode succeeds although the element is larger than its element-size field can express");
+                assert!(out.len == 2 + n && out.buf[0] as usize == 1 + n && out.buf[1] as usize == n, "C05: written length, element-size octet or count octet is wrong");
+                assert!(v.encoded_len() == out.len, "C05: encoded_len differs from the octets written");
+                kani::cover!(true, "accepting path");
+            }
+            Err(e) => {
+                assert!(1 + n > 255, "C05: encode fails although the element fits its element-size field");
+                assert!(matches!(e, EncodeError::SizeOverflow { .. }), "C05: overflow reported with the wrong EncodeError variant");
+            }
+        }
+        std::mem::forget(v);
+    }
+"""
+
+# (type, lo, native constructor, octets of the sized thing as a function of n, expected variant)
+WINDOWS = (('CW', 253, 'CW { x: vec![0; n] }', lambda n: n, 'CountOverflow'),
+           ('SW', 125, 'SW { x: vec![0; n] }', lambda n: 2 * n, 'SizeOverflow'),
+           ('EW', 252, 'EW { x: vec![El { d: vec![0; n] }] }', lambda n: 1 + n, 'SizeOverflow'))
+
+
+def windowed(out, cov, only=None):
     import os
     from . import build, kanirun, model as M
     from .rsreplay import NativeRunner
     f = M.File('little', [M.packet('CW', [M.count('x', 8), M.array('x', width=8)]),
-                          M.packet('SW', [M.size('x', 8), M.array('x', width=16)])])
+                          M.packet('SW', [M.size('x', 8), M.array('x', width=16)]),
+                          M.struct('El', [M.count('d', 8), M.array('d', width=8)]),
+                          M.packet('EW', [M.elemsize('x', 8), M.array('x', type_id='El')])])
     pdl = M.to_pdl(f)
     text = build.pdlc(pdl, 'rust', (), 'c05_window')
-    hs = WINDOW % dict(t='CW', lo=253, hi=258, unwind=261, cap=300, es=1, limit=255, unit=1, per=1, variant='CountOverflow')
-    hs += WINDOW % dict(t='SW', lo=125, hi=130, unwind=133, cap=300, es=2, limit=255, unit=1, per=2, variant='SizeOverflow')
+    hs = ''
+    if not only or 'CW' in only:
+        hs += WINDOW % dict(t='CW', lo=253, hi=258, unwind=261, cap=300, es=1, limit=255, unit=1, per=1, variant='CountOverflow')
+    if not only or 'SW' in only:
+        hs += WINDOW % dict(t='SW', lo=125, hi=130, unwind=133, cap=300, es=2, limit=255, unit=1, per=2, variant='SizeOverflow')
+    if not only or 'EW' in only:
+        hs += WINDOW_EW % dict(lo=252, hi=257, unwind=260, cap=300)
     mod = text + '\n#[cfg(kani)]\nmod h {\n    use super::*;\n    use crate::support::*;\n' + hs + '}\n'
     crate = os.path.join(build.WORK, 'kani', 'C05', 'window')
     kanirun.write_crate(crate, {'m_window': mod})
-    res, log_text = kanirun.cargo_kani(crate, kanirun.shard_target(0), jobs=2, harness_timeout=2400, total_timeout=6000)
-    wcov = {'harnesses': [], 'note': 'vec![0; n], n symbolic in [limit-2, limit+3]; element content fixed to 0 (cut)'}
+    res, log_text = kanirun.cargo_kani(crate, kanirun.shard_target(0), jobs=3, harness_timeout=2400, total_timeout=6000)
+    wcov = {'harnesses': [], 'note': 'vec![0; n], n symbolic in a 6-value window around the 8-bit limit; element content fixed to 0 (cut); '
+                                     'EW: one element El{d: vec![0; n]} of 1+n octets behind an 8-bit _elementsize_ field'}
     runner = None
-    for t, lo in (('CW', 253), ('SW', 125)):
+    for t, lo, ctor, octets, variant in WINDOWS:
+        if only and t not in only:
+            continue
         r = res.get(f'm_window::c05w_{t}')
         if r is None:
             out.inconclusive_item(f'windowed harness c05w_{t}: no result')
@@ -78,18 +122,22 @@ def windowed(out, cov):
             continue
         # replay: every length of the window natively
         if runner is None:
-            arms = '\n'.join(f'        ("{x}", "win") => {{ let n = words[0] as usize; let v = {x} {{ x: vec![0; n] }}; '
-                             f'match v.encode_to_vec() {{ Ok(b) => format!("OK len={{}} first={{}}", b.len(), b[0]), Err(e) => format!("ERR {{}}", evariant(&e)) }} }}'
-                             for x in ('CW', 'SW'))
-            runner = NativeRunner(text, ['CW', 'SW'], '', arms)
-        es, variant = (1, 'CountOverflow') if t == 'CW' else (2, 'SizeOverflow')
+            arms = '\n'.join(f'        ("{x}", "win") => {{ let n = words[0] as usize; let v = {c}; '
+                             f'match v.encode_to_vec() {{ Ok(b) => format!("OK len={{}} first={{}} elen={{}}", b.len(), b[0], v.encoded_len()), Err(e) => format!("ERR {{}}", evariant(&e)) }} }}'
+                             for x, _, c, _, _ in WINDOWS)
+            runner = NativeRunner(text, ['CW', 'SW', 'EW'], '', arms)
         bad, obs = False, {}
         for n in range(lo, lo + 6):
             o = runner.run('release', t, 'win', b'', [n])
             obs[str(n)] = o
-            fits = n * es <= 255
+            fits = octets(n) <= 255
             if o.startswith('OK') != fits or (not fits and variant not in o):
                 bad = True
+            if fits and o.startswith('OK'):
+                m = re.match(r'OK len=(\d+) first=(\d+) elen=(\d+)', o)
+                head = {'CW': n, 'SW': 2 * n, 'EW': 1 + n}[t]
+                if not m or int(m.group(1)) != int(m.group(3)) or int(m.group(2)) != head:
+                    bad = True
         sig = {'backend': 'rust', 'kind': 'c05w', 'type': t, 'checks': ' | '.join(sorted(set(r.failed_checks)))}
         rec = {'property': PROP, 'engine': 'E-KANI', 'harness': f'c05w_{t}', 'pdl': pdl, 'failed_checks': r.failed_checks, 'native': obs, 'sig': sig}
         out.violation(sig, rec, reproduced=bad)
